@@ -4105,12 +4105,12 @@ class Wallet(object):
         else:
             transaction.change = int(amount_total_input - (amount_total_output + transaction.fee))
 
+        if transaction.change < 0:
+            raise WalletError("Total amount of outputs is greater then total amount of inputs")
         # Skip change if amount is smaller than the dust limit or estimated fee
         if (fee_per_output and transaction.change < fee_per_output) or transaction.change <= transaction.network.dust_amount:
             transaction.fee += transaction.change
             transaction.change = 0
-        if transaction.change < 0:
-            raise WalletError("Total amount of outputs is greater then total amount of inputs")
         if transaction.change:
             min_output_value = transaction.network.dust_amount * 2 + transaction.network.fee_min * 4
             if transaction.fee and transaction.size:
